@@ -299,7 +299,8 @@ def one_grammar(ctx, shape, recursive, linear, modes):
                 if not idx or max(idx) <= m - 3 or min(idx) >= 2:
                     return True
             return False
-        iso = ['jpp-internal-node-outside-some-step'] if any(_early(r) for r in shape['rules']) else []
+        iso = (['jpp-internal-node-outside-some-step'] if any(_early(r) for r in shape['rules']) else []) + \
+              (['jpp-edge-attached-twice'] if any(len(set(att)) < len(att) for r in shape['rules'] for _, _, att in r['edges']) else [])
         if len(rep['value']) != len(base['value']) or not all(close(a, b, rtol) for a, b in zip(rep['value'], base['value'])):
             ctx.fail(f'{name}: value depends on the options ({method}, j_precompute={jp}, {dt})', dict(case, config=cfg), rep['value'], base['value'],
                      tags=['option-value', name, method, f'j_precompute={jp}', dt] + iso)
